@@ -23,8 +23,8 @@ Theorem C24_eof_before_first : forall soft stmts, forallb (stmt_ok soft) stmts =
 Proof. exact eof_before_first. Qed.
 Print Assumptions C24_eof_before_first.
 
-(* PRINT# of lines then LINE INPUT#: lines without CR and 1A, at most 254 long (default mode: no LF;
-   soft_linefeed mode: not ending in LF) come back, with the same EOF behaviour *)
+(* PRINT# of lines then LINE INPUT#: lines of the class line_ok (no 1A, at most 254 long; default mode: no CR, no
+   LF; soft_linefeed mode: CR only directly after LF, last byte not LF) come back, with the same EOF behaviour *)
 Theorem C24_print_lineinput_roundtrip : forall soft ls, forallb (line_ok soft) ls = true ->
   read_lines (length ls) (open_input soft (print_file ls)) = Ok (combine ls (eof_flags (length ls))).
 Proof. exact print_lineinput_roundtrip. Qed.
@@ -55,22 +55,82 @@ Print Assumptions C24_lof.
 
 (* the operations the correspondence harness runs are these functions: OPEN/WRITE#/CLOSE scripts produce
    write_file / append_file / print_file, OPEN FOR INPUT reads open_input, LOF reports the byte count *)
-Theorem C24_script_sessions : forall soft stmts ls d old raw f r,
+Theorem C24_script_sessions : forall soft stmts ls d old raw w r att,
   exec soft (OpOpenO :: map OpWrite stmts ++ [OpClose]) (mkF d HClosed) = mkF (Some (write_file stmts)) HClosed /\
   exec soft (OpOpenA :: map OpWrite stmts ++ [OpClose]) (mkF (Some old) HClosed)
     = mkF (Some (append_file old stmts)) HClosed /\
   exec soft (OpOpenO :: map OpPrint ls ++ [OpClose]) (mkF d HClosed) = mkF (Some (print_file ls)) HClosed /\
-  step soft OpOpenI (mkF (Some raw) HClosed) = ([0], mkF (Some raw) (HIn raw (open_input soft raw))) /\
-  fst (step soft OpLof (mkF d (HOut f))) = [0; zlen f] /\
-  fst (step soft OpLof (mkF d (HIn raw r))) = [0; zlen raw].
+  step soft OpOpenI (mkF (Some raw) HClosed) = ([0], mkF (Some raw) (HIn raw (open_input soft raw) false)) /\
+  fst (step soft OpLof (mkF d (HOut w))) = [0; zlen (wbytes w)] /\
+  fst (step soft OpLof (mkF d (HIn raw r att))) = [0; zlen raw].
 Proof.
-  intros soft stmts ls d old raw f r.
+  intros soft stmts ls d old raw w r att.
   split; [exact (script_output_session soft stmts d)|].
   split; [exact (script_append_session soft stmts old)|].
   split; [exact (script_print_session soft ls d)|].
-  split; [exact (script_open_input soft raw)|]. exact (script_lof soft d f raw r).
+  split; [exact (script_open_input soft raw)|]. exact (script_lof soft d w raw r att).
 Qed.
 Print Assumptions C24_script_sessions.
+
+(* LOC counts 128-byte blocks.  Output/append: complete blocks written so far.  Input with soft_linefeed: the
+   blocks needed for the bytes consumed (at least 1).  Input behind the NewlineWrapper: the same for the raw
+   prefix that produced the bytes consumed, where one absorbed LF may already be counted. *)
+Theorem C24_loc : forall f n raw r att,
+  128 * loc_out f <= zlen f < 128 * loc_out f + 128 /\
+  (0 <= n -> 1 <= blocks n /\ (n <= 128 -> blocks n = 1) /\
+             (128 < n -> 128 * (blocks n - 1) < n <= 128 * blocks n)) /\
+  loc_in true raw r att = blocks (zlen raw - zlen (rest r)) /\
+  (zlen (rest r) <= zlen (nlfilter NONE raw) ->
+   exists p, (p <= length raw)%nat /\
+     nlfilter NONE (firstn p raw) =
+       firstn (Z.to_nat (zlen (nlfilter NONE raw) - zlen (rest r))) (nlfilter NONE raw) /\
+     (loc_in false raw r att = blocks (Z.of_nat p) \/ loc_in false raw r att = blocks (Z.of_nat p + 1))).
+Proof.
+  intros f n raw r att. split; [exact (loc_out_spec f)|]. split; [exact (blocks_spec n)|].
+  split; [exact (loc_in_soft raw r att) | exact (loc_in_default raw r att)].
+Qed.
+Print Assumptions C24_loc.
+
+(* INPUT$(n,#f): exactly the next n bytes of the stream (CR, LF, quotes, blanks as they are) when no 1A is among
+   them, Input past end otherwise.  (The stream is the file with soft_linefeed, the newline-translated file
+   otherwise; reads of more than one byte through the NewlineWrapper: known finding K24b.) *)
+Theorem C24_input_str : forall n r,
+  ((n <= length (rest r))%nat -> memZ EOFB (firstn n (rest r)) = false ->
+   fst (input_str n r) = Ok (firstn n (rest r)) /\ rest (snd (input_str n r)) = skipn n (rest r)) /\
+  ((length (rest r) < n)%nat \/ memZ EOFB (firstn n (rest r)) = true ->
+   fst (input_str n r) = Err tf_err_INPUT_PAST_END).
+Proof. intros n r. split; [exact (input_str_ok n r) | exact (input_str_past_end n r)]. Qed.
+Print Assumptions C24_input_str.
+
+(* PRINT# with several expressions separated by ; and , (14-column zones) at WIDTH 255: statements that end in a
+   value write the lines ptext 1 es, and LINE INPUT# returns exactly those lines when they are in the class *)
+Theorem C24_print_exprs_roundtrip : forall soft stmts, Forall (fun es => pnl es true = true) stmts ->
+  pprint_session stmts = print_file (map (ptext 1) stmts) /\
+  (forallb (line_ok soft) (map (ptext 1) stmts) = true ->
+   read_lines (length stmts) (open_input soft (pprint_session stmts)) =
+   Ok (combine (map (ptext 1) stmts) (eof_flags (length stmts)))).
+Proof.
+  intros soft stmts H. split; [exact (pprint_session_lines stmts H) | exact (pprint_lineinput_roundtrip soft stmts H)].
+Qed.
+Print Assumptions C24_print_exprs_roundtrip.
+
+(* WIDTH#: a value is never split; at most one CR LF is put in front of it, and only when it does not fit *)
+Theorem C24_width_wrap : forall w s b,
+  (wbytes (wwrite w s b) = wbytes w ++ s \/ wbytes (wwrite w s b) = wbytes w ++ [CR; LF] ++ s) /\
+  (wbytes (wwrite w s b) <> wbytes w ++ s ->
+   b = true /\ wwidth w <> 255 /\ wcol w <> 1 /\ wwidth w < wcol w - 1 + fst (first_width s)).
+Proof. intros w s b. split; [exact (wwrite_no_split w s b) | exact (wwrite_break_only_if_needed w s b)]. Qed.
+Print Assumptions C24_width_wrap.
+
+(* line_ok is exact: sufficient for all lines (C24_print_lineinput_roundtrip); necessary on every line of up to 6
+   bytes and every pair of lines of up to 3 bytes over one representative per byte class (ordinary, CR, LF, 1A);
+   the length bound is exact by C24_nonvacuous (254) and C24_line255_refuted (255) *)
+Theorem C24_line_ok_exact : forall soft,
+  (forall l, In l (all_lists sweep_alpha 6) -> lines_roundtrip soft [l] = line_ok soft l) /\
+  (forall l1 l2, In l1 (all_lists sweep_alpha 3) -> In l2 (all_lists sweep_alpha 3) ->
+     lines_roundtrip soft [l1; l2] = line_ok soft l1 && line_ok soft l2).
+Proof. intro soft. split; [exact (line_ok_exact_upto6 soft) | exact (line_ok_exact_pairs_upto3 soft)]. Qed.
+Print Assumptions C24_line_ok_exact.
 
 (* the model never runs out of fuel: INPUT# and LINE INPUT# return a value or Input past end *)
 Theorem C24_total : forall str r,
@@ -126,5 +186,7 @@ Example C24_nonvacuous :
   Ok (combine (map item_text (concat stmts)) [false; false; false; false; false; false; true]) /\
   let ls := [[97; 34; 44; 0; 98]; []; repeat 32 254] in
   forallb (line_ok false) ls = true /\
-  read_lines 3 (open_input false (print_file ls)) = Ok (combine ls [false; false; true]).
+  read_lines 3 (open_input false (print_file ls)) = Ok (combine ls [false; false; true]) /\
+  line_ok true [97; 10; 13; 98] = true /\
+  ptext 1 [PV [97]; PComma; PV [98]; PSemi; PV [32; 49; 32]] = [97] ++ repeat 32 13 ++ [98; 32; 49; 32].
 Proof. vm_compute. repeat split; reflexivity. Qed.
